@@ -415,6 +415,13 @@ func (tr *Tr) unop(fr *frame, x *ssa.UnOp, set func(ssa.Value, string)) {
 	case token.XOR:
 		set(x, app("bvnot", v.T))
 	case token.MUL: // load
+		if g, ok := x.X.(*ssa.Global); ok {
+			if c := tr.G.constGlobal(g); c != nil {
+				// a package-level variable the module only initialises (never assigns): its initial value
+				fr.vals[x] = tr.constVal(c)
+				return
+			}
+		}
 		pl := fr.places[x.X]
 		if pl == nil {
 			et := x.X.Type().Underlying().(*types.Pointer).Elem()
@@ -426,7 +433,11 @@ func (tr *Tr) unop(fr *frame, x *ssa.UnOp, set func(ssa.Value, string)) {
 		set(x, lv.T)
 		r := fr.vals[x]
 		tr.assume(fr.curReach, tr.wf(r))
-		tr.assume(fr.curReach, tr.belowAlloc(r, tr.curA(fr)))
+		bound := tr.curA(fr)
+		if pl.kind != plObj {
+			bound = tr.loadBound(fr, pl.key)
+		}
+		tr.assume(fr.curReach, tr.belowAlloc(r, bound))
 	case token.ARROW:
 		tr.vc.Abstract["chan-recv"]++
 		if x.CommaOk {
